@@ -5,12 +5,11 @@ import (
 	"encoding/hex"
 	"go/ast"
 	"go/token"
-	"strings"
 )
 
 // Functions that contain a loop are translated only up to the loop: the loop
 // itself is replaced by a section variable that stands for the hand model of
-// that part (Proofs/BigIntRoutinesEq.v instantiates it with the model's own
+// that part (Proofs/BigIntEqHash.v instantiates it with the model's own
 // code).  The replaced source text is FINGERPRINTED: if it changes, bigintgen
 // stops with an error instead of silently keeping the old model.
 
@@ -67,7 +66,7 @@ func (t *tr) loopStmt(s ast.Stmt) bool {
 		return false
 	}
 	if fp := fingerprint(fs); fp != lm.sha {
-		t.fail("the loop changed (fingerprint %s, recorded %s): its model %q in Proofs/BigIntRoutinesEq.v "+
+		t.fail("the loop changed (fingerprint %s, recorded %s): its model %q in Proofs/BigIntEqHash.v "+
 			"must be re-validated against the new code and the fingerprint in tools/bigintgen/loops.go updated", fp, lm.sha, lm.fn)
 	}
 	e := lm.fn
@@ -160,7 +159,7 @@ func (t *tr) applyGuardCut(gc guardCut, body []ast.Stmt) (kept []ast.Stmt, tail 
 	}
 	if fp := fingerprint(skipped...); fp != gc.sha {
 		t.fail("the part after the guards changed (fingerprint %s, recorded %s): its model %q in "+
-			"Proofs/BigIntRoutinesEq.v must be re-validated against the new code and the fingerprint in "+
+			"Proofs/BigIntEqHash.v must be re-validated against the new code and the fingerprint in "+
 			"tools/bigintgen/loops.go updated", fp, gc.sha, gc.fn)
 	}
 	tail = func() string {
@@ -245,5 +244,3 @@ func (t *tr) optionJoin(s *ast.IfStmt, be *ast.BinaryExpr, v *val, rest []ast.St
 	t.storeVar(n1, &val{t: tZ, c: c}, false)
 	return pre + t.takeLines() + t.block(rest, k)
 }
-
-var _ = strings.TrimSpace
